@@ -21,7 +21,7 @@ META = dict(
     rule="case = (command, argument form / destination variant, card index); all distinct; non-trivial = the command was really executed as a child process using the worktree sources and produced (or correctly refused to produce) its files",
     min_nontrivial=10,
     required_hits=["worktree_sources_used", "example_default_absent", "example_default_present", "example_explicit_absent", "example_explicit_present",
-                   "run_form1", "run_form2", "run_form3", "run_bitwise_operators", "run_usage_refused"],
+                   "run_form1", "run_form2", "run_form3", "run_bitwise_operators", "run_usage_refused", "cards_dump_load"],
     max_inconclusive_frac=0.1,
 )
 
@@ -291,8 +291,60 @@ def _run_case(arg):
     return out
 
 
+def _cards_case(arg):
+    """Library level: ekobox.cards.dump / load round trip of example and random cards."""
+    seed, j = arg
+    import yaml
+    from eko.io import runcards
+    from ekobox import cards
+
+    rng = np.random.default_rng([seed, 49, 7, j])
+    out = dict(hits={}, viol=[], inc=[], ok=0, key=("cards dump/load", j), nontrivial=True)
+    d = pathlib.Path(scratch.mkdtemp())
+    wit = dict(kind="cards", index=j)
+    try:
+        if j == 0:
+            th, op = cards.example.theory(), cards.example.operator()
+            op.mugrid = [(float(np.sqrt(1e5)), 5), (np.sqrt(10.0), 4)]  # NumPy scalar inside a tuple, as the CLI does
+        else:
+            th_raw, op_raw = _tiny_cards(rng, j)
+            th = runcards.TheoryCard.from_dict(copy.deepcopy(th_raw))
+            op = runcards.OperatorCard.from_dict(copy.deepcopy(op_raw))
+        nbad = 0
+        for nm, card, cls in (("theory", th, runcards.TheoryCard), ("operator", op, runcards.OperatorCard)):
+            p = d / f"{nm}.yaml"
+            out["hits"]["cards_dump_load"] = out["hits"].get("cards_dump_load", 0) + 1
+            try:
+                cards.dump(card.raw, p)
+            except Exception as e:
+                out["viol"].append((f"C49/cards/dump-raises", f"cards.dump({nm}.raw) raised {type(e).__name__}: {str(e)[:150]}", wit))
+                nbad += 1
+                continue
+            back = cards.load(p)
+            mine = yaml.safe_load(p.read_text(encoding="utf-8"))
+            if not _plain(mine) or not _eq(back, mine):
+                out["viol"].append((f"C49/cards/load", f"{nm}: cards.load differs from a plain safe_load of the file", wit))
+                nbad += 1
+                continue
+            again = cls.from_dict(copy.deepcopy(back))
+            if not _eq(again.raw, card.raw):
+                diff = [k for k in set(again.raw) | set(card.raw) if not _eq(again.raw.get(k), card.raw.get(k))]
+                out["viol"].append((f"C49/cards/roundtrip", f"{nm}: dump -> load -> from_dict changes the card in {diff}", dict(wit, diff=diff)))
+                nbad += 1
+        out["sample"] = dict(kind="cards", index=j, mismatches=nbad)
+        if nbad == 0:
+            out["ok"] = 1
+    finally:
+        shutil.rmtree(d, ignore_errors=True)
+    return out
+
+
 def _one(arg):
-    return _example_case(arg[1:]) if arg[0] == "example" else _run_case(arg[1:])
+    if arg[0] == "example":
+        return _example_case(arg[1:])
+    if arg[0] == "cards":
+        return _cards_case(arg[1:])
+    return _run_case(arg[1:])
 
 
 def _merge(ck, rec):
@@ -326,6 +378,7 @@ def run(ck):
         for form in (1, 2, 3):
             items.append(("run", ck.seed, form, 10 * c + form + 100 * (ck.seed % 50)))
     items += [("run", ck.seed, 0, 900), ("run", ck.seed, 4, 901)]
+    items += [("cards", ck.seed, j) for j in range(ck.n(6, 40))]
     for it, st, val in jobs.pmap(_one, items, timeout=ck.n(1500, 3000)):
         if st != "ok":
             ck.case(None, nontrivial=False)
@@ -340,6 +393,8 @@ def replay(ck, rep):
     seed = w.get("seed", rep.get("seed", 0))
     if w["kind"] == "example":
         _merge(ck, _example_case((seed, w["variant"])))
+    elif w["kind"] == "cards":
+        _merge(ck, _cards_case((seed, w["index"])))
     else:
         _merge(ck, _run_case((seed, w["form"], w["index"])))
     ck.min_nontrivial = 0
